@@ -46,7 +46,7 @@ def main():
             open(os.path.join(d, f"check-{pid}.log"), "w").write(p.stdout[-6000:])
     finally:
         sh(f"git -C /repo worktree remove --force {wt}")
-        sh("rm -rf /verif/violations")
+        sh("rm -rf /verif/violations-scratch")
     if "first_checks" not in v:
         v["first_checks"] = v.get("checks", [])
     keep = [c for c in v.get("checks", []) if c["property"] not in props]
